@@ -19,7 +19,7 @@ PROPS = {
                 "(abstract interpretation of MIR with the `pretty` builder modelled), each template is re-lexed with the grammar's "
                 "longest-match lexer and must derive from a production that builds the node with holes bound to the same fields in "
                 "the same order (R-PGRAM); adjacent token/hole pairs are checked for lexer merging (R-LEX); every syntactic field is "
-                "printed (R-TRAV) and operators round-trip (R-ENUM/surface).",
+                "printed (R-TRAV) and operators round-trip (R-ENUM/surface). R-FMTWRITE: every file the fmt command opens for writing is opened with truncation, so a shorter formatted text never leaves the old tail behind.",
         "assumptions": ["layout (groups, nesting, soft lines) never changes the token sequence - follows from pretty's semantics, trusted",
                         "round trip over all widths/indents is not enumerated; the token-level argument is layout-independent"],
     },
@@ -30,7 +30,7 @@ PROPS = {
                 "inserted only after a duplicate check that returns Err (R-DUP), binder lists are checked for duplicates before use "
                 "(R-NODUP), no typing Result is dropped or defused and no look-up is defaulted (R-RESULT), the clause-matching and "
                 "arity diagnostics are reachable (R-EXITS), every subterm is checked and annotated (R-TRAV, R-ANNOT), the typing rule of every simple term form - which subterm is checked in which context against which type - is the rule of the language (R-TYRULE, read off the folded Check::check), and nothing "
-                "reachable from parsing/checking can panic (R-PANIC zone A).",
+                "reachable from parsing/checking can panic (R-PANIC zone A). R-TYRULE: the typing rule each term form implements (literal, variable, arithmetic, conditional, let, label, goto, exit, print, parentheses, call, constructor, destructor) - which subterm is checked in which context against which type, which types are compared - is read off the folded Check::check and compared with the rule of the language.",
         "assumptions": ["acceptance of every well-typed program and correctness of type equality itself are not decided"],
     },
     "C20": {
@@ -132,7 +132,7 @@ PROPS = {
                 "wildcard (R-SHAPE); the chirality collapse folds to the documented 6-row table (R-CHI, abstract interpretation of "
                 "shrink_binding); lifted definitions get exactly the free variables, in one order, on both sides (R-SAMESRC); generated "
                 "(co)matches enumerate the declaration with consistent tags and fresh environments (R-DECLSRC); operator/sort tables "
-                "are name-preserving (R-ENUM); fresh identifiers are fresh (R-FRESH/R-MAXID).",
+                "are name-preserving (R-ENUM); fresh identifiers are fresh (R-FRESH/R-MAXID). R-SIBLING: the fields of a focused node that its renaming rewrites are all counted by its free-variable collection (lifted statements receive exactly their free variables).",
         "assumptions": ["that each arm's right-hand side is the right AxCut statement (e.g. producer-first vs consumer-first) is not decided"],
     },
     "C19": {
@@ -172,7 +172,7 @@ PROPS = {
                   fresh.rule_fresh, linear.rule_linear_subst, linear.rule_linear_ctx, inputs.rule_useall_for(["axcut"], 50), traversal.rule_siblings],
         "text": "Structural necessary conditions of linearization: every FreeVars/Subst/TypedFreeVars/Linearizing impl of AxCut visits "
                 "every sub-statement (R-TRAV), free-variable annotation precedes linearization (R-WIRE) and is set on every path "
-                "(R-ANNOT), only Substitute reaches the panic of Statement::linearize (R-SHAPE).",
+                "(R-ANNOT), only Substitute reaches the panic of Statement::linearize (R-SHAPE). R-SIBLING: the same cross-check between AxCut's Subst and FreeVars / TypedFreeVars.",
         "assumptions": ["exactness of every environment on every path is value-level reasoning about lists, not decided"],
     },
     "C12": {
@@ -181,7 +181,7 @@ PROPS = {
         "text": "'No internal failure' clause: every panic-capable site reachable from the post-check stage entry points is audited, "
                 "and the annotation/shape classes are discharged by checked rules rather than trusted: Check sets every annotation on "
                 "every Ok path and visits every subterm (R-ANNOT, R-TRAV), free-variable and closure-environment annotations are set "
-                "before they are read (R-ANNOT, R-WIRE), no well-typed shape reaches a panicking wildcard (R-SHAPE).",
+                "before they are read (R-ANNOT, R-WIRE), no well-typed shape reaches a panicking wildcard (R-SHAPE). R-NAMEPRINT: the printers of types and type arguments leave no line-break opportunity when printed as names (print_to_string(None)), so the names of type instances do not depend on the page width; R-SIBLING: renaming and free-variable collection of a node agree on its variable fields.",
         "assumptions": ["LOOKUP rows (well-scopedness) are the residual trusted base",
                         "that each intermediate program type-checks in its own language is not decided"],
     },
@@ -202,7 +202,7 @@ PROPS = {
                 "only locally discharged rows. Decides 'never panics on user input' for all inputs at once. Termination: R-DESCENT decides that "
                 "every recursion cycle of the pipeline's call graph is a structural descent (each recursive call receives a part of its "
                 "caller's input, or an audited renaming of one), so the recursion depth is bounded by the program; R-LOOP decides that every loop is left through the exhaustion of a finite "
-                "iterator or popped collection (three audited searches excepted).",
+                "iterator or popped collection (three audited searches excepted). R-SPAN: diagnostic source spans are empty or given by token boundaries, never a constant number of bytes (miette panics when a label ends inside a multi-byte character).",
         "assumptions": ["lalrpop's generated state machine and third-party crates do not panic",
                         "LOOKUP rows: checked programs are well-scoped (name lookups succeed)",
                         "stack overflow and allocation failure are outside the property ('within stack limits')"],
